@@ -189,11 +189,12 @@ Proof.
       (split; [exists f0; split; [apply c10_lookup_bind_same|exact Hf0]
               |split; [intros m Hm; unfold c10_at; simpl; apply c10_lookup_bind_other; auto|split; reflexivity]]). }
   destruct Hinv1 as [Hinv1 Hfr1].
-  set (body := c10_bind (c10_pl_write_chunks en name chunks w1) _) in H.
+  set (body := c10_bind (c10_with_pops en name (c10_pl_write_chunks en name chunks w1)) _) in H.
   destruct body as [[] w5|e w5|w5] eqn:Hbody; simpl in H; try discriminate.
   2:{ destruct (c10_is_open w5 name); [destruct (c10_fclose en name w5); discriminate|discriminate]. }
   subst body.
   destruct (c10_pl_write_chunks en name chunks w1) as [[] w2|e w2|w2] eqn:Hw; simpl in Hbody; try discriminate.
+  2:{ destruct (c10_pop_finish_n (en_md5_pops en) en name w2) as [[]| |]; discriminate. }
   destruct (c10_pl_write_chunks_inv _ _ _ _ _ _ Hinv1 Hw) as (Hinv2a & Hfr2a). simpl in Hinv2a.
   destruct (c10_pop_finish_n (en_md5_pops en) en name w2) as [[] w2'|e w2'|w2'] eqn:Hpop; simpl in Hbody; try discriminate.
   destruct (c10_pop_finish_n_inv _ _ _ _ _ _ Hinv2a Hpop) as (Hinv2 & Hfr2b).
@@ -538,6 +539,11 @@ Proof.
     destruct (ck_finish (en_ck en) && (negb ok || c10_ferror w1 name)); [destruct (ck_popper (en_ck en))|]; exact H1.
   - intros _ w1 H1. rewrite IH. exact H1.
 Qed.
+Lemma c10_dq_with_pops en name r : c10_diag_of (c10_with_pops en name r) = c10_diag_of r.
+Proof.
+  destruct r as [[] w|e w|w]; simpl; [apply c10_dq_pop_finish_n| |reflexivity].
+  pose proof (c10_dq_pop_finish_n en name (en_md5_pops en) w) as H. destruct (c10_pop_finish_n _ en name w); exact H.
+Qed.
 Lemma c10_dq_fclose en name w : c10_diag_of (c10_fclose en name w) = cw_diag w.
 Proof. apply c10_dq_stream_op. Qed.
 Lemma c10_dq_dtor_close {A} en name (r : c10_res A) : c10_diag_of (c10_dtor_close en name r) = c10_diag_of r.
@@ -549,8 +555,7 @@ Lemma c10_dq_writer_file en name chunks w : c10_diag_of (c10_writer_file en name
 Proof.
   unfold c10_writer_file. apply c10_dq_bind; [apply c10_dq_fopen|]. intros ok w1 H1.
   destruct ok; simpl; [|exact H1]. rewrite c10_dq_dtor_close.
-  apply c10_dq_bind; [rewrite c10_dq_pl_write_chunks; exact H1|]. intros _ w2a H2a.
-  apply c10_dq_bind; [rewrite c10_dq_pop_finish_n; exact H2a|]. intros _ w2 H2.
+  apply c10_dq_bind; [rewrite c10_dq_with_pops, c10_dq_pl_write_chunks; exact H1|]. intros _ w2 H2.
   apply c10_dq_bind; [rewrite c10_dq_pl_finish; exact H2|]. intros _ w3 H3.
   apply c10_dq_bind; [rewrite c10_dq_fclose; exact H3|]. intros okc w4 H4.
   destruct (ck_wclose (en_ck en) && negb okc); exact H4.
@@ -765,11 +770,12 @@ Proof.
       (split; [exists f0; split; [apply c10_lookup_bind_same|exact Hf0]
               |split; [intros m Hm; unfold c10_at; simpl; apply c10_lookup_bind_other; auto|split; reflexivity]]). }
   destruct Hinv1 as [Hinv1 Hfr1].
-  set (body := c10_bind (c10_pl_write_chunks en name chunks w1) _) in H.
+  set (body := c10_bind (c10_with_pops en name (c10_pl_write_chunks en name chunks w1)) _) in H.
   destruct body as [[] w5|e w5|w5] eqn:Hbody; simpl in H; try discriminate.
   2:{ destruct (c10_is_open w5 name); [destruct (c10_fclose en name w5); discriminate|discriminate]. }
   subst body.
   destruct (c10_pl_write_chunks en name chunks w1) as [[] w2|e w2|w2] eqn:Hw; simpl in Hbody; try discriminate.
+  2:{ destruct (c10_pop_finish_n (en_md5_pops en) en name w2) as [[]| |]; discriminate. }
   destruct (c10_pl_write_chunks_inv _ _ _ _ _ _ Hinv1 Hw) as (Hinv2a & Hfr2a). simpl in Hinv2a.
   destruct (c10_pop_finish_n (en_md5_pops en) en name w2) as [[] w2'|e w2'|w2'] eqn:Hpop; simpl in Hbody; try discriminate.
   destruct (c10_pop_finish_n_inv _ _ _ _ _ _ Hinv2a Hpop) as (Hinv2 & Hfr2b).
@@ -1299,6 +1305,11 @@ Proof.
     rewrite orb_false_r in Hs. rewrite Hs. destruct (negb ok || c10_ferror w1 name); exact H1.
   - intros _ w1 H1. rewrite IH. exact H1.
 Qed.
+Lemma c10_ab_with_pops en name r : c10_popper_safe (en_ck en) = true -> c10_ab_of (c10_with_pops en name r) = c10_ab_of r.
+Proof.
+  intros Hs. destruct r as [[] w|e w|w]; simpl; [apply c10_ab_pop_finish_n; exact Hs| |reflexivity].
+  pose proof (c10_ab_pop_finish_n en name Hs (en_md5_pops en) w) as H. destruct (c10_pop_finish_n _ en name w); exact H.
+Qed.
 Lemma c10_ab_fclose en name w : c10_ab_of (c10_fclose en name w) = cw_aborted w.
 Proof. apply c10_ab_stream_op. Qed.
 Lemma c10_ab_dtor_close {A} en name (r : c10_res A) : c10_ab_of (c10_dtor_close en name r) = c10_ab_of r.
@@ -1310,8 +1321,7 @@ Lemma c10_ab_writer_file en name chunks w : c10_popper_safe (en_ck en) = true ->
 Proof.
   intros Hs. unfold c10_writer_file. apply c10_ab_bind; [apply c10_ab_fopen|]. intros ok w1 H1.
   destruct ok; simpl; [|exact H1]. rewrite c10_ab_dtor_close.
-  apply c10_ab_bind; [rewrite c10_ab_pl_write_chunks; exact H1|]. intros _ w2a H2a.
-  apply c10_ab_bind; [rewrite c10_ab_pop_finish_n by exact Hs; exact H2a|]. intros _ w2 H2.
+  apply c10_ab_bind; [rewrite c10_ab_with_pops by exact Hs; rewrite c10_ab_pl_write_chunks; exact H1|]. intros _ w2 H2.
   apply c10_ab_bind; [rewrite c10_ab_pl_finish; exact H2|]. intros _ w3 H3.
   apply c10_ab_bind; [rewrite c10_ab_fclose; exact H3|]. intros okc w4 H4.
   destruct (ck_wclose (en_ck en) && negb okc); exact H4.
